@@ -1,3 +1,4 @@
 /- Aggregate: typed extraction (C13.lean) and copyArray (C13Copy.lean). -/
 import AJ.Props.C13
 import AJ.Props.C13Copy
+import AJ.Props.C13Gen
